@@ -164,7 +164,12 @@ fn inline_image(lexer: &mut Lexer, resolve: &impl Resolve) -> Result<Arc<ImageXO
     );
     let end = match end {
         Some(end) => end,
-        None => bail!("inline image exceeds expected data range")
+        None => {
+            // the image data runs to the end of the content: nothing is left to read there
+            // (without this, every further `BI` of a damaged stream searches the rest again)
+            lexer.set_pos(lexer.get_pos() + rest.len());
+            bail!("inline image exceeds expected data range")
+        }
     };
     let data_end = lexer.get_pos() + end - 1;
     lexer.set_pos(data_end + 3);
